@@ -311,6 +311,11 @@ func runC06(r *run) {
 		}
 		// attributes in ascending key order after the message
 		rest := first[len(want):]
+		if c.caller && c.pc == 0 && !strings.HasSuffix(rest, " :0 ") {
+			// a record without a resolvable caller: no file, line 0, no function name
+			r.violate(violation{What: "layout: the caller of a record without a program counter is not the empty file, line 0 and no function", Input: encDescribe(c),
+				Expected: "… :0 ", Actual: fmt.Sprintf("%q", first)})
+		}
 		eff := effective(c.attrs)
 		if len(eff) == 0 || eff[0].val.kind != "group" {
 			// the message field is exactly as wide as configured: what follows is one blank and the next field
